@@ -770,7 +770,6 @@ func corrKinds(cs []c39Corruption) string {
 
 func specClass(spec string) string { return strings.ReplaceAll(spec, ">", "-over-") }
 
-
 func errClass(res integrity.ValidationResult) string {
 	switch {
 	case len(res.PartFailures) > 0:
